@@ -222,6 +222,17 @@ class SeqSuite(Suite):
                     # this request's operator new (if the policy calls it) throws bad_alloc; the generator cannot know
                     # whether a frame results, so it is used as the last request of the case
                     lines.append(("cfail %d %d" % (k, kind)) if coro else ("afail %d %d" % (k, sz)))
+                    # tail that is valid whether or not a frame resulted: every candidate id is released after each request
+                    lines.append("free %d" % nframes)
+                    if pol == "stack" and objs[k][1] is not None:
+                        break       # the object's buffer is occupied by an older frame: no further requests on it
+                    for rnd in range(1, rng.randint(2, 4)):
+                        tsz = rng.choice([0, 1, 8, 8, 16, 40, sz // 2, sz, sz + 8])
+                        if pol == "placement":
+                            tsz = min(tsz, max(0, p - ex))
+                        lines.append("%s %d %d" % ("afail" if rng.random() < 0.2 else "alloc", k, tsz))
+                        for c in range(nframes, nframes + rnd + 1):
+                            lines.append("free %d" % c)
                     break
                 if coro and drop and rng.random() < 0.5:
                     # started with a promise that cannot be claimed (default constructed / moved-from / already resolved)
